@@ -24,7 +24,8 @@ def c03(name, ops, keys=(), guard=True):
     p = {"format": kernel.FORMAT, "property": "C03",
          "config": {"order_keys": list(keys), "churn": 0, "hashseed": 0, "no_domain_guard": not guard},
          "world": {"texts": {"t0": "a1 b", "t1": ""}},
-         "tasks": [[{"op": "build", "id": i, "recipe": r} for i, r in enumerate(ops)]], "schedule": []}
+         "tasks": [[({"op": "build", "id": i, "recipe": r["__expect_own__"], "expect": "own"} if isinstance(r, dict)
+                     else {"op": "build", "id": i, "recipe": r}) for i, r in enumerate(ops)]], "schedule": []}
     return name, p
 
 
@@ -77,6 +78,13 @@ FIXED = [
     ("C03", "76c7d1d", "naming a group that contains a named group renamed every nested group as well",
      c03("C03-fixed-nested-rename", [["named", "AnyDigit"], ["call", "capture", ["ref", 0], "n1"], N("AtMost", ["ref", 1], None),
                                      N("Capture", ["ref", 2], "n2"), N("Capture", ["ref", 3], "n3")])),
+    ("C03", "35411b9", "a repeating quantifier applied to a bare anchor (an anchor of the empty pattern) returned an invalid regex such as '$?'",
+     c03("C03-fixed-bare-anchor", [N("MatchAtLineEnd", ["empty"]), N("Optional", ["ref", 0]), N("MatchAtStart", ["empty"]),
+                                   {"__expect_own__": ["new", "OneOrMore", ["ref", 2]]}])),
+    ("C03", "12904c5", "Capture() of a Conditional or of a bare lookaround rewrote its first characters into an invalid regex",
+     c03("C03-fixed-capture-special-groups", [N("Conditional", "g", ["lit", "a"]), N("Capture", ["ref", 0], "n"),
+                                              N("FollowedBy", ["empty"], ["lit", "a"]), N("Capture", ["ref", 2], "m"),
+                                              N("Backreference", "g"), N("Capture", ["ref", 4])])),
     ("C03", "78ecc39", "Conditional accepted a branch pattern of the wrong type instead of raising InvalidArgumentTypeException",
      ("C03-fixed-conditional-type", dict(c03("x", [N("Conditional", "g", 1.5)])[1],
                                          tasks=[[{"op": "build", "id": 0, "recipe": N("Conditional", "g", 1.5), "expect": "own"}]]))),
@@ -94,14 +102,6 @@ KNOWN = [
             "same expression matches non-ASCII digits under some hash seeds only; C06/C07 leave those code points unspecified, C20 does not; "
             "found by the thorough-tier soak (about 1 in 30 000 class expressions); not repaired because canonical merging of adjacent ranges "
             "changes the documented spellings the test suite pins", C20_SHORTHAND),
-    ("C03", "a repeating quantifier applied to a bare anchor (an anchor of the empty pattern) returns an invalid regex such as '$?' "
-            "instead of raising CannotBeRepeatedException; input-dimension defect, not configuration dependent; not repaired because the "
-            "repair changes type inference of one-character patterns",
-     c03("C03-known-bare-anchor", [N("MatchAtLineEnd", ["empty"]), N("Optional", ["ref", 0])], guard=False)),
-    ("C03", "Capture()/Group() applied to a Conditional strips the conditional's parentheses and returns an invalid regex",
-     c03("C03-known-group-of-conditional", [N("Conditional", "g", ["lit", "a"]), N("Capture", ["ref", 0], "n")], guard=False)),
-    ("C03", "Capture()/Group() applied to a bare lookaround (a lookaround of the empty pattern) mangles it into an invalid regex",
-     c03("C03-known-group-of-bare-lookaround", [N("FollowedBy", ["empty"], ["lit", "a"]), N("Capture", ["ref", 0], "n")], guard=False)),
     ("C03", "lookbehind assertions accept an alternation of different widths and return a regex that re rejects (C10's input dimension)",
      c03("C03-known-lookbehind-alternation", [N("PrecededBy", ["lit", "x"], N("Either", ["lit", "a"], ["lit", "bc"]))], guard=False)),
     ("C03", "a numeric Backreference followed by a pattern that starts with a digit merges into another escape (Backreference(7) + '42' "
@@ -123,7 +123,8 @@ def main():
         path = os.path.join("known", name + ".json")
         with open(os.path.join(ROOT, path), "w") as f:
             json.dump(plan, f, indent=1, ensure_ascii=True, sort_keys=True)
-        entries.append({"property": prop, "kind": "fixed", "commit": commit, "what": what, "witness": path})
+        entries.append({"property": prop, "kind": "fixed", "commit": commit, "what": what, "witness": path,
+                        "line": "fixed: property=%s %s %s" % (prop, commit, what)})
         res, _ = runner.replay_file(os.path.join(ROOT, path), "/repo/src")
         line = "%-40s HEAD:%s" % (name, res["status"])
         if res["status"] != "ok":
@@ -149,7 +150,8 @@ def main():
                 json.dump(plan, f, indent=1, ensure_ascii=True, sort_keys=True)
         else:
             bad += 1
-        entries.append({"property": prop, "kind": "known", "what": what, "witness": path})
+        entries.append({"property": prop, "kind": "known", "what": what, "witness": path,
+                        "line": "KNOWN-FINDING: property=%s %s" % (prop, what)})
         print("%-40s HEAD:%s %s" % (name, res["status"], (res.get("rule") or "") + " " + str(res.get("detail"))[:160]))
     with open(os.path.join(ROOT, "known_findings.json"), "w") as f:
         json.dump({"comment": "kind=known: genuine defects recorded rather than repaired, identified by their witness plan; the check "
